@@ -1,6 +1,6 @@
 """Claimed level per property (text for MANIFEST.json)."""
 HOOK_COMMITS = ["f85b327"]
-FIX_COMMITS = ["1fe7dcd", "1179cbc", "91f131a"]
+FIX_COMMITS = ["1fe7dcd", "1179cbc", "91f131a", "b2341ca", "1a02c9c"]
 TB = ("Trusted: Coq 8.16.1 kernel (vm_compute only for finite sweeps/witnesses), ExtrOcamlBasic extraction + OCaml driver and the Rust harness "
       "(correspondence only, bounded by its generators). ")
 LEVELS = {
@@ -27,5 +27,21 @@ LEVELS = {
                 "(fix: commits) before the theorems could be proved.",
         "note": TB + "Hash assumptions appear only as the disjuncts Collision H / ZeroPre H and the 32-byte output length. Completeness of the "
                 "non-membership prover is decided by correspondence + oracle (every related non-member label on every generated tree), not yet by a theorem.",
+    },
+    "C15": {
+        "text": "Machine-checked proof over the storage-manager model (all states reachable or not that satisfy the proved invariant, all keys, "
+                "users and flags): a single-record read in a transaction equals the read of the committed database; every user-state query "
+                "(five flags) selects from the committed state set and reports NotFound only when nothing is selectable; user data lists the "
+                "committed states; commit hands over exactly the log with the epoch record last and leaves database = database overridden by "
+                "log; rollback; nested begin refused.  Model tied to the code by operation-sequence correspondence incl. rejected writes; two "
+                "genuine defects found (cache filled before a rejected write; version/epoch confusion) and repaired.",
+        "note": TB + "batch_get and the bulk version query are decided by correspondence + committed-twin oracle (no theorem yet).",
+    },
+    "C16": {
+        "text": "Machine-checked invariant: in every state reachable by any operation sequence, with any database call rejected and any set of "
+                "cache entries evicted at any time (this abstracts clocks, expiry and the floating-point memory-pressure arithmetic soundly), "
+                "every cached record equals the database's; hence a read returns the pending value or exactly the database's record, and "
+                "after a flush the epoch record is read from storage.  Tied to the code incl. database-operation counts per call.",
+        "note": TB + "Single-task semantics; the concurrent read-fill vs write-through race is a recorded limitation (K3), multi-thread runs are a search only.",
     },
 }
